@@ -1,4 +1,4 @@
-import Adsb.Gen.Fns
+import Adsb.Gen.CrcFn
 import Adsb.Theorems.C03
 /-! # C03 (part 2) — `modes_checksum` *as translated from the source on this run* is the model's checksum, hence the Mode S syndrome
 
